@@ -283,12 +283,6 @@ def accumulation(rep, repo, mod):
     rep.ob('C13.accumulate', 'abuf has max(column 6) + 1 rows x sims lanes, zero-initialised', ok)
     if not ok:
         rep.violate('C13.accumulate', mod, wi, 'self.abuf_len / self.abuf', 'abuf must have self.ops[:, 6].max() + 1 rows and `sims` lanes, zero-initialised int32', node=wi)
-    lc = mod.func('level_eval_cpu')
-    calls = [c for c in find_all(lc, ast.Call) if call_name(c) == 'wave_eval_cpu']
-    ok = len(calls) == 1 and [cz(a) for a in calls[0].args] == ['op', 'c', 'c_locs', 'c_caps', 'sim', 'delays', 'simctl_int[:,sim]', 'seed']
-    rep.ob('C13.accumulate', 'level_eval_cpu -> wave_eval_cpu(op, c, c_locs, c_caps, sim, delays, simctl_int[:, sim], seed)', ok)
-    if not ok:
-        rep.violate('C13.accumulate', mod, lc, calls[0] if calls else 'wave_eval_cpu(...)', 'level_eval_cpu must call the kernel with (op, c, c_locs, c_caps, sim, delays, simctl_int[:, sim], seed)', node=lc)
 
 
 def thorough(rep, repo):
